@@ -12,6 +12,7 @@ import (
 	"os"
 	"strconv"
 
+	"github.com/SAP/go-dblib/asetypes"
 	"github.com/SAP/go-dblib/tds"
 )
 
@@ -147,6 +148,37 @@ func (r *txRunner) ctxFor(op txOp) context.Context {
 	return context.Background()
 }
 
+// paramPkgs builds a parameter format and its parameter data (the data package takes its layout from
+// the package queued before it: Channel.lastPkgTx); the expected encodings come from writing equal
+// packages into a queue of their own (the layouts themselves are C06's matter).
+func (r *txRunner) paramPkgs(wide bool) (fpkg, ppkg tds.Package, fenc, penc []byte) {
+	mk := func() (*tds.ParamFmtPackage, *tds.ParamsPackage) {
+		var fmts []tds.FieldFmt
+		var datas []tds.FieldData
+		vals := []struct {
+			dt asetypes.DataType
+			v  interface{}
+		}{{asetypes.INT4, int32(r.next)}, {asetypes.VARCHAR, fmt.Sprintf("v%d", r.next)}, {asetypes.LONGBINARY, []byte{1, 2, 3, byte(r.next)}}}
+		for _, x := range vals[:1+r.next%3] {
+			ff, fd, err := tds.LookupFieldFmtData(x.dt)
+			if err != nil {
+				continue
+			}
+			fd.SetValue(x.v)
+			fmts = append(fmts, ff)
+			datas = append(datas, fd)
+		}
+		return tds.NewParamFmtPackage(wide, fmts...), tds.NewParamsPackage(datas...)
+	}
+	f1, p1 := mk()
+	f2, p2 := mk()
+	fenc, _ = writeBytes(f2)
+	if err := p2.LastPkg(f2); err == nil {
+		penc, _ = writeBytes(p2)
+	}
+	return f1, p1, fenc, penc
+}
+
 func (r *txRunner) pkg(op txOp) (tds.Package, []byte) {
 	if op.Kind == "lang" && op.N >= 6 {
 		cmd := r.payload(op.N - 6)
@@ -200,6 +232,21 @@ func (r *txRunner) apply(op txOp) {
 	case "Type":
 		r.ch.CurrentHeaderType = tds.PacketHeaderType(op.N)
 		r.tr.Emit(Ev{"ev": "SetType", "typ": op.N})
+	case "Params":
+		// a parameter format and its data, queued one after the other in the running message
+		fpkg, ppkg, fenc, penc := r.paramPkgs(op.N%2 == 0)
+		r.next++
+		if len(fenc) == 0 || len(penc) == 0 {
+			return
+		}
+		for i, pk := range []tds.Package{fpkg, ppkg} {
+			enc := [][]byte{fenc, penc}[i]
+			r.msg = append(r.msg, enc...)
+			r.tr.Emit(Ev{"ev": "Queue", "n": len(enc), "ctx": cx, "typ": int(r.ch.CurrentHeaderType)})
+			err := r.ch.QueuePackage(r.ctxFor(op), pk)
+			r.wires()
+			r.tr.Emit(Ev{"ev": "QueueEnd", "st": errClass(err), "typ": int(r.ch.CurrentHeaderType)})
+		}
 	case "Queue":
 		pkg, enc := r.pkg(op)
 		r.msg = append(r.msg, enc...)
@@ -452,6 +499,9 @@ func txMain(args []string) error {
 			}
 			if rng.Intn(4) == 0 {
 				ops = append(ops, txOp{Op: "Type", N: hdrTypes[rng.Intn(len(hdrTypes))]})
+			}
+			if rng.Intn(5) == 0 { // packages that depend on the package queued before them
+				ops = append(ops, txOp{Op: "Params", N: rng.Intn(2)})
 			}
 			if rng.Intn(12) == 0 { // C13: a send with a cancelled context writes nothing
 				ops = append(ops, txOp{Op: "Queue", N: total, Ctx: "cancelled"})
